@@ -6,5 +6,6 @@ INVARIANT Completeness
 INVARIANT ValidAgrees
 INVARIANT Linearity
 INVARIANT HonestProofGadgetTest
+INVARIANT LagEvalRootsAgrees
 INVARIANT EmitInv
 CHECK_DEADLOCK FALSE
